@@ -1,9 +1,41 @@
 import Driver.SelOut
 import Driver.Route
 import Driver.Api
+import Driver.Basic
+import Driver.Speciate
+import Driver.Gamma
+import Driver.Store
+import Driver.Raw
+import Driver.Transport
+import Driver.RK
+import Driver.Gas
+import Driver.Surface
+import Driver.Inventory
+import Driver.Units
+import Driver.Inverse
+import Driver.Wrapper
+import Driver.LineReader
+import Driver.Formula
+
+/-- `pmodel <sub-command>`: each sub-command is a line-protocol driver of one executable model. -/
 def main (args : List String) : IO UInt32 := do
   match args with
   | ["selout"] => Driver.SelOut.run; return 0
   | ["route"] => Driver.Route.run; return 0
   | ["api"] => Driver.Api.run; return 0
+  | ["basic"] => Driver.Basic.run; return 0
+  | ["speciate"] => Driver.Speciate.run; return 0
+  | ["gamma"] => Driver.Gamma.run; return 0
+  | ["store"] => Driver.Store.run; return 0
+  | ["raw"] => Driver.Raw.run; return 0
+  | ["transport"] => Driver.Transport.run; return 0
+  | ["rk"] => Driver.RK.run; return 0
+  | ["gas"] => Driver.Gas.run; return 0
+  | ["surface"] => Driver.Surface.run; return 0
+  | ["inventory"] => Driver.Inventory.run; return 0
+  | ["units"] => Driver.Units.run; return 0
+  | ["inverse"] => Driver.Inverse.run; return 0
+  | ["wrapper"] => Driver.Wrapper.run; return 0
+  | ["linereader"] => Driver.LineReader.run; return 0
+  | ["formula"] => Driver.Formula.run; return 0
   | _ => IO.eprintln s!"pmodel: unknown sub-command {args}"; return 2
